@@ -15,7 +15,7 @@ from ..run import hyp_run
 
 ID = 'C16'
 LEVEL = 'exploration'
-BUDGET_S = {'quick': 150, 'thorough': 1500}
+BUDGET_S = {'quick': 300, 'thorough': 1500}
 RULE = ('points (decimal text x, digit count n, function) with x on the grid sign x {0,1,2,7,10,99,123,1000,12345} x '
         '.0000-.9999 (quick: every tie, every fraction ending in 0 or 5, stride-37 background; thorough: all) and n in -3..6, '
         'plus Hypothesis decimals of up to 15 significant digits; supplied by override (bulk), literal and workbook constant; '
